@@ -34,10 +34,16 @@ RULE = ("cases = (PDA definition, word) for runs and (definition) for validation
         "(≤3 states, adversarial state names, λ-cycles, accepting start configurations, overlapping "
         "alphabets incl. non-ASCII ones, str/tuple pushes, NPDA entries that are empty sets), a dense family "
         "with 4–5 states and words up to length 9, definitions declaring '' as a stack symbol (must be "
-        "refused) and malformed definitions; a run is non-trivial when at least one "
+        "refused), malformed definitions, tables whose stack symbols and state names have more than one "
+        "character ('Z0', 'bottom', names that are prefixes of each other; pushes as tuples of symbols, rarely "
+        "as the concatenated str) and tables with rows keyed by names missing from `states` that a move of the "
+        "start configuration enters (sometimes with a λ-move next to a symbol move in such a row only: must be "
+        "refused; if accepted, a word on which DPDA and NPDA disagree is searched); a run is non-trivial when at least one "
         "move is taken; distinct = distinct (definition, word) pairs")
 ASSUMPTIONS = [
-    "symbols are single characters; the empty string is not a stack symbol: PDA.validate refuses it (fix cb4efab; "
+    "input symbols are single characters (the input is a str, read character by character); a stack symbol is any "
+    "non-empty str — a tuple push is a sequence of symbols, a str push a sequence of one-character symbols (so "
+    "('Z0',) and 'Z0' are different pushes); the empty string is not a stack symbol: PDA.validate refuses it (fix cb4efab; "
     "PDAStack.top() returns '' for an empty stack, so a table keyed by '' let an empty stack move), hence no valid "
     "table has such a key and the model's stack-symbol type has no such value — every run checks that the "
     "constructors refuse such definitions and, if one is accepted, evaluates the property on it",
@@ -331,7 +337,8 @@ def nontrivial(ys) -> bool:
     return len(ys) >= 2 and bool(ys[1])
 
 
-def check_validate(ctx: Ctx, kind: str, spec: dict, enc: Enc, built, origin: str):
+def check_validate(ctx: Ctx, kind: str, spec: dict, enc: Enc, built, origin: str, words=(), level_cap: int = 12,
+                   size_cap: int = 80):
     """Constructor outcome vs. model, and the determinism clause of the property on the real code."""
     line = ctx.driver(DRV).ask(toks("NPDA_VALIDATE" if kind == "N" else "DPDA_VALIDATE", enc.text))
     parts = line.split()
@@ -349,6 +356,17 @@ def check_validate(ctx: Ctx, kind: str, spec: dict, enc: Enc, built, origin: str
             ctx.stat("dpda_table_with_two_applicable_moves")
         if ok_else and two and impl != ("err", "NondeterminismError"):
             wrong.append(f"a configuration has two applicable moves but the DPDA constructor says {impl[1] or 'ok'}")
+            if built[0] == "ok":
+                # show that it matters: a word that the accepted DPDA and the NPDA / all runs decide differently
+                wit = witness_two_moves(ctx, spec, built[1], words, level_cap, size_cap)
+                if wit is not None:
+                    wrong.append(wit[1])
+                    case = dict(case, word=wit[0])
+                    if (level_cap, size_cap) != (12, 80):
+                        case.update(level_cap=level_cap, size_cap=size_cap)
+                else:
+                    case = dict(case, note="no word of length <= 4 (nor of this case's word list) found on which the "
+                                           "accepted DPDA and the NPDA with the same table give different verdicts")
         if not two and impl == ("err", "NondeterminismError"):
             wrong.append("no configuration has two applicable moves but the constructor raises NondeterminismError")
     if ok_else and not two and impl[0] != "ok":
@@ -375,7 +393,11 @@ def check_table(ctx: Ctx, kind: str, spec: dict, words, origin: str, level_cap: 
     built = build(kind, spec)
     two = False
     if validate or built[0] != "ok":
-        two = check_validate(ctx, kind, spec, enc, built, origin)
+        two = check_validate(ctx, kind, spec, enc, built, origin, list(words), level_cap, size_cap)
+    if isinstance(spec["initial_stack_symbol"], str) and len(spec["initial_stack_symbol"]) > 1:
+        ctx.stat("initial_stack_symbol_of_more_than_one_character")
+    if any(q not in spec["states"] for q in spec["transitions"]):
+        ctx.stat("table_with_a_row_keyed_by_an_undeclared_state")
     if built[0] != "ok" or two:
         return
     obj = built[1]
@@ -423,9 +445,7 @@ def check_table(ctx: Ctx, kind: str, spec: dict, words, origin: str, level_cap: 
             ctx.sample(dict(kind="DPDA", definition=spec_repr(spec), word=w, trace=[repr(c) for c in trace],
                             outcome=out, model=mod))
     # ---- the NPDA with the same table
-    nspec = dict(spec)
-    nspec["transitions"] = {q: {a: {X: {e} for X, e in sp.items()} for a, sp in row.items()}
-                            for q, row in spec["transitions"].items()}
+    nspec = lift_spec(spec)
     nb = build("N", nspec)
     if nb[0] != "ok":
         ctx.prop_fail(f"a table accepted by DPDA is rejected by NPDA ({nb[1]})",
@@ -441,6 +461,50 @@ def check_table(ctx: Ctx, kind: str, spec: dict, words, origin: str, level_cap: 
                 ctx.prop_fail(f"DPDA and NPDA with the same table disagree on {w!r}: DPDA {dv}, NPDA {nv}",
                               dict(kind="D", spec=spec_repr(spec), word=w, op="pair", level_cap=level_cap,
                                    size_cap=size_cap), None)
+
+
+def lift_spec(spec: dict) -> dict:
+    """The NPDA definition with the same table as a DPDA definition."""
+    nspec = dict(spec)
+    nspec["transitions"] = {q: {a: {X: {e} for X, e in sp.items()} for a, sp in row.items()}
+                            for q, row in spec["transitions"].items()}
+    return nspec
+
+
+def witness_two_moves(ctx: Ctx, spec: dict, obj, words, level_cap: int, size_cap: int):
+    """The DPDA constructor accepted a table in which some configuration has two applicable moves
+    (called by check_validate).  Look for a word on which that matters: the reference semantics of the
+    table (all runs) and the real NPDA with the same table decide the word one way, the real DPDA the other."""
+    nspec = lift_spec(spec)
+    nb = build("N", nspec)
+    if nb[0] != "ok":
+        return
+    ref = Ref("N", nspec)
+    sy = sorted(a for a in spec["input_symbols"] if isinstance(a, str) and len(a) == 1)[:3]
+    cand = list(words) + ["".join(t) for n in range(0, 5) for t in itertools.product(sy, repeat=n)]
+    seen = set()
+    for w in cand:
+        if w in seen:
+            continue
+        seen.add(w)
+        _, eout = ref.expected_npda(w, level_cap, size_cap)
+        if eout not in ("returned", "raised RejectionException"):
+            continue
+        trace, out = impl_dpda(obj, w, 4 * level_cap)
+        if out == "fuel":
+            continue
+        nlevels, nout = impl_npda(nb[1], w, level_cap, size_cap)
+        if nout != eout:
+            continue  # the NPDA reader itself is off: judged by its own family
+        ctx.case(None)
+        ctx.stat("accepted_table_with_two_moves:word_tried")
+        if out != eout:
+            dv, nv = call_res(lambda: obj.accepts_input(w)), call_res(lambda: nb[1].accepts_input(w))
+            if dv != nv:
+                return w, (f"the accepted DPDA and the NPDA with the same table disagree on {w!r}: DPDA {dv}, "
+                           f"NPDA {nv}, all runs of the table (reference): "
+                           f"{'accept' if eout == 'returned' else 'reject'}")
+    return None
 
 
 def check_empty_stack_symbol(ctx: Ctx, kind: str, spec: dict, words, origin: str, level_cap: int, size_cap: int):
@@ -804,6 +868,131 @@ def malform(rng, kind, spec):
     return s
 
 
+# ----------------------------------------------------------------- round 4: names of more than one character
+# A stack symbol is any non-empty str; only a *str push* is read as a sequence of one-character symbols.
+# The shaped generators above work with one-character stack symbols; these tables are renamed copies of
+# theirs, with every push written as a tuple of symbols (rarely as the concatenated str, which the
+# library — and the reference — read character by character: with names that are prefixes of each other
+# the tuple ('Z0',) and the str 'Z0' are different pushes).
+STACK_NAME_STYLES = [
+    ["Z0", "A1", "B2", "C3"],           # the textbook bottom marker
+    ["Z0", "A", "B", "C"],              # only one long name
+    ["bottom", "x", "yy", "zzz"],
+    ["Z", "Z0", "0", "Z00"],            # prefixes / suffixes of each other, all characters declared too
+    ["#", "##", "###", "#0"],
+    ["$$", "A", "AA", "AAA"],
+    ["⊥⊥", "⊥0", "Ωß", "ß"],
+    ["a", "ab", "ba", "b"],             # overlapping the input alphabet
+    ["q0", "q1", "0", "1"],             # overlapping usual state names
+]
+STATE_NAME_STYLES = [
+    ["q", "q0", "q00", "q01", "q1"],
+    ["start", "loop", "end", "st", "lo"],
+    ["Z0", "A1", "Z", "0", "bottom"],   # the same strings as stack symbols
+    ["s0", "s1", "s2", "s3", "s4"],
+    [("q", 0), ("q", 1), "q0", "q1", ("q0",)],
+]
+GHOST_NAMES = ["ghost", "q9", 99, ("g",), "", -1, "Z0"]
+
+
+def rename_spec(rng, kind: str, spec: dict) -> dict:
+    ss = sorted(spec["stack_symbols"])
+    pool = list(rng.choice(STACK_NAME_STYLES))
+    rng.shuffle(pool)
+    smap = dict(zip(ss, pool))
+    z = spec["initial_stack_symbol"]
+    if len(smap[z]) == 1 and rng.random() < 0.85:
+        for y in ss:
+            if len(smap[y]) > 1:
+                smap[z], smap[y] = smap[y], smap[z]
+                break
+        else:
+            smap[z] = next(n for n in pool if len(n) > 1 and n not in smap.values())
+    names = sorted(spec["states"], key=repr)
+    qmap = {}
+    if rng.random() < 0.6 and len(names) <= 5:
+        qpool = list(rng.choice(STATE_NAME_STYLES))
+        rng.shuffle(qpool)
+        qmap = dict(zip(names, qpool))
+    str_pushes = rng.random() < 0.25
+
+    def entry(e):
+        p, push = e
+        syms = tuple(smap.get(y, y + "'") for y in push)  # y + "'": an undeclared symbol stays undeclared
+        if not syms and rng.random() < 0.5:
+            syms = ""
+        elif str_pushes and rng.random() < 0.3:
+            syms = "".join(syms)
+        return (qmap.get(p, p), syms)
+
+    t = {}
+    for q, row in spec["transitions"].items():
+        t[qmap.get(q, q)] = {a: {smap[X]: (entry(e) if kind == "D" else {entry(x) for x in sorted(e, key=repr)})
+                                 for X, e in sp.items()} for a, sp in row.items()}
+    return mk_spec([qmap.get(q, q) for q in names], spec["input_symbols"], [smap[y] for y in ss], t,
+                   qmap.get(spec["initial_state"], spec["initial_state"]), smap[z],
+                   [qmap.get(q, q) for q in spec["final_states"]], spec["acceptance_mode"])
+
+
+def ghost_table(rng, kind: str):
+    """A table with rows keyed by names that `states` does not list, entered by a move of the start
+    configuration.  PDA.validate checks neither row keys nor move targets against `states`, so such a row is
+    live: its moves are taken by both readers, and a λ-move next to a symbol move in it makes the table
+    nondeterministic like in any other row."""
+    spec = dense_table(rng, kind, True, n_states=(1, 3))
+    names = sorted(spec["states"], key=repr)
+    insyms, stsyms = sorted(spec["input_symbols"]), sorted(spec["stack_symbols"])
+    ghosts = [g for g in rng.sample(GHOST_NAMES, rng.choice([1, 1, 2])) if g not in spec["states"]] or ["ghost"]
+    everyone = names + ghosts + ghosts
+    t = spec["transitions"]
+    init, z = spec["initial_state"], spec["initial_stack_symbol"]
+
+    def entry(keep=None):
+        k = rng.choice([0, 1, 1, 2])
+        push = tuple(rng.choice(stsyms) for _ in range(k))
+        if keep is not None:
+            push = (keep,) + push[1:]
+        return (rng.choice(everyone), push if rng.random() < 0.5 else "".join(push))
+
+    def put(row, a, X, e):
+        if kind == "D":
+            row.setdefault(a, {})[X] = e
+        else:
+            row.setdefault(a, {}).setdefault(X, set()).add(e)
+
+    for g in ghosts:
+        row = t.setdefault(g, {})
+        for X in stsyms:
+            r = rng.random()
+            for a in ([""] if r < 0.25 else insyms if r < 0.9 else []):
+                if rng.random() < 0.8:
+                    put(row, a, X, entry())
+    if rng.random() < 0.45:
+        # a λ-move and a symbol move for the same stack top, in a row of an undeclared name only
+        g, X = rng.choice(ghosts), (z if rng.random() < 0.6 else rng.choice(stsyms))
+        put(t[g], "", X, entry(keep=X if rng.random() < 0.5 else None))
+        put(t[g], rng.choice(insyms), X, entry())
+    # a move of the start configuration that enters the first undeclared row with the top it started with
+    row = t.setdefault(init, {})
+    a = "" if z in row.get("", {}) else rng.choice(insyms)
+    e = (ghosts[0], (z,))
+    if kind == "D":
+        row.setdefault(a, {})[z] = e
+    else:
+        row.setdefault(a, {}).setdefault(z, set()).add(e)
+    return spec
+
+
+def textbook_z0(kind: str, mode: str):
+    """a^n b^n with the bottom marker called 'Z0' (Hopcroft–Ullman style names)."""
+    e = (lambda x: {x}) if kind == "N" else (lambda x: x)
+    return dict(states={"q0", "q1", "q2"}, input_symbols={"a", "b"}, stack_symbols={"Z0", "A"},
+                transitions={"q0": {"a": {"Z0": e(("q0", ("A", "Z0"))), "A": e(("q0", ("A", "A")))},
+                                    "b": {"A": e(("q1", ""))}},
+                             "q1": {"b": {"A": e(("q1", ""))}, "": {"Z0": e(("q2", ""))}}},
+                initial_state="q0", initial_stack_symbol="Z0", final_states={"q2"}, acceptance_mode=mode)
+
+
 # ----------------------------------------------------------------- corpus
 def corpus():
     """Triggers of past defects (§8 F7), killers of the Appendix-D mutants m03 / m05 and
@@ -851,6 +1040,21 @@ def corpus():
                     acceptance_mode="final_state"), ["", "a"]
     yield "N", dict(kw, transitions={"q0": {"a": {"Z": set()}, "": {"Z": {("q1", "Z")}}}, "q1": {"": {"Z": set()}}},
                     final_states={"q1"}, acceptance_mode="both"), ["", "a", "aa"]
+    # round 4: stack symbols / state names of more than one character; a row keyed by an undeclared name
+    for kind in "ND":
+        for mode in MODES:
+            yield kind, textbook_z0(kind, mode), ["", "ab", "aabb", "aab", "abb", "ba", "b"]
+    yield "N", dict(states={"s", "st"}, input_symbols={"a"}, stack_symbols={"Z", "Z0", "0"},
+                    transitions={"s": {"a": {"Z0": {("s", "Z0"), ("st", ("Z0", "Z0"))}, "Z": {("st", "")}},
+                                       "": {"0": {("st", ("Z",))}}}},
+                    initial_state="s", initial_stack_symbol="Z0", final_states={"st"},
+                    acceptance_mode="final_state"), ["", "a", "aa", "aaa"]
+    yield "D", dict(kw, transitions={"q0": {"a": {"Z": ("ghost", "Z")}},
+                                     "ghost": {"a": {"Z": ("q1", "Z")}, "": {"Z": ("q0", "Z")}}},
+                    final_states={"q1"}, acceptance_mode="final_state"), ["aa", "a"]
+    yield "D", dict(kw, transitions={"q0": {"a": {"Z": ("ghost", "ZZ")}},
+                                     "ghost": {"a": {"Z": ("q1", "")}}, "q1": {"": {"Z": ("q1", "")}}},
+                    final_states=set(), acceptance_mode="empty_stack"), ["aa", "a", "aaa"]
     # review rev1 GAP-2 (repaired by cb4efab): '' declared as a stack symbol and used as a key — PDAStack.top()
     # of an empty stack is '', so the empty stack moved to q1 and '' was accepted.  Must be refused now.
     for kind in "ND":
@@ -921,6 +1125,21 @@ def run(ctx: Ctx):
         kind = rng.choice("ND")
         spec = malform(rng, kind, rand_table(rng, kind, rng.random() < 0.7))
         check_table(ctx, kind, spec, [""], "malformed")
+    # ---- round 4: stack symbols and state names of more than one character (pushes are tuples of symbols)
+    for _ in range(ctx.budget(500, 8000)):
+        kind = rng.choice("ND")
+        base = (dense_table if rng.random() < 0.6 else rand_table)(rng, kind, rng.random() < 0.9)
+        spec = rename_spec(rng, kind, base)
+        check_table(ctx, kind, spec, rand_words(rng, spec, 4, 6, kind), "random_multichar_names",
+                    40 if thorough else 24, 80)
+    # ---- round 4: rows keyed by names missing from `states`, entered by a move
+    for _ in range(ctx.budget(400, 6000)):
+        kind = "D" if rng.random() < 0.7 else "N"
+        spec = ghost_table(rng, kind)
+        if rng.random() < 0.2:
+            spec = rename_spec(rng, kind, spec)
+        check_table(ctx, kind, spec, rand_words(rng, spec, 4, 6, kind), "random_undeclared_rows",
+                    40 if thorough else 24, 80)
 
 
 def search(ctx: Ctx):
